@@ -23,12 +23,15 @@
    CR / CRLF normalisation. Outside (Unmod): bytes >= 128, "<?", "<!", ':' in a tag name, attributes,
    numeric entities >= 128. *)
 From Coq Require Import List NArith ZArith Bool.
-From TarsV Require Import Base.Hex.
+From TarsV Require Import Base.Hex Gen.Consts.
 Import ListNotations.
 Open Scope bool_scope.
 Open Scope N_scope.
 
 Definition bytes := list N.
+(* list reversal in linear time (the model is evaluated on lines of 64 KiB); frev l = rev l (ConfProofs.frev_rev) *)
+Definition frev {A} (l : list A) : list A := rev_append l [].
+
 
 Inductive outcome (A : Type) := Ok (a : A) | Err (e : N) | Panic (site : N) | Unmodelled.
 Arguments Ok {A} a. Arguments Err {A} e. Arguments Panic {A} site. Arguments Unmodelled {A}.
@@ -108,13 +111,13 @@ Definition set_mode (m : lmode) (x : lstate) : lstate :=
   {| mode := m; txt := txt x; b0 := b0 x; b1 := b1 x; out := out x; st := st x |}.
 Definition flush (x : lstate) : lstate :=
   {| mode := mode x; txt := []; b0 := 0; b1 := 0;
-     out := match txt x with [] => out x | t => TText (rev t) :: out x end; st := st x |}.
+     out := match txt x with [] => out x | t => TText (frev t) :: out x end; st := st x |}.
 Definition emit (ts : list token) (x : lstate) : lstate :=   (* ts in reverse order *)
   {| mode := MText; txt := []; b0 := 0; b1 := 0; out := ts ++ out x; st := st x |}.
 Definition put (c : N) (x : lstate) : lstate :=
   {| mode := mode x; txt := c :: txt x; b0 := b0 x; b1 := b1 x; out := out x; st := st x |}.
 Definition puts (cs : bytes) (x : lstate) : lstate :=        (* cs in order *)
-  {| mode := mode x; txt := rev cs ++ txt x; b0 := b0 x; b1 := b1 x; out := out x; st := st x |}.
+  {| mode := mode x; txt := frev cs ++ txt x; b0 := b0 x; b1 := b1 x; out := out x; st := st x |}.
 Definition shift (c : N) (x : lstate) : lstate :=
   {| mode := mode x; txt := txt x; b0 := b1 x; b1 := c; out := out x; st := st x |}.
 Definition reset_b (x : lstate) : lstate :=
@@ -136,13 +139,13 @@ Definition lex_step (x : lstate) (c : N) : lstate :=
   | MText => text_step x c
   | MEnt raw =>
       if c =? c_semi then
-        match decode_entity (rev raw) with
+        match decode_entity (frev raw) with
         | EntText b => reset_b (set_mode MText (put b (if is_ctrl b then mark Failed x else x)))
-        | EntBad => reset_b (set_mode MText (puts (c_amp :: rev raw ++ [c_semi]) (mark Failed x)))
+        | EntBad => reset_b (set_mode MText (puts (c_amp :: frev raw ++ [c_semi]) (mark Failed x)))
         | EntUnmod => reset_b (set_mode MText (mark Unmod x))
         end
       else if is_ent_char c then set_mode (MEnt (c :: raw)) x
-      else text_step (reset_b (set_mode MText (puts (c_amp :: rev raw) (mark Failed x)))) c
+      else text_step (reset_b (set_mode MText (puts (c_amp :: frev raw) (mark Failed x)))) c
   | MLt =>
       if c =? c_slash then set_mode MLtSlash x
       else if (c =? c_qm) || (c =? c_bang) || (c =? c_colon) then junk Unmod x
@@ -151,9 +154,9 @@ Definition lex_step (x : lstate) (c : N) : lstate :=
   | MStartName n =>
       if is_name_char c then set_mode (MStartName (c :: n)) x
       else if c =? c_colon then junk Unmod x
-      else if c =? c_gt then emit [TStart (rev n)] x
-      else if c =? c_slash then set_mode (MSlash (rev n)) x
-      else if is_xml_blank c then set_mode (MStartWs (rev n)) x
+      else if c =? c_gt then emit [TStart (frev n)] x
+      else if c =? c_slash then set_mode (MSlash (frev n)) x
+      else if is_xml_blank c then set_mode (MStartWs (frev n)) x
       else junk Failed x
   | MStartWs n =>
       if is_xml_blank c then x
@@ -170,8 +173,8 @@ Definition lex_step (x : lstate) (c : N) : lstate :=
   | MEndName n =>
       if is_name_char c then set_mode (MEndName (c :: n)) x
       else if c =? c_colon then junk Unmod x
-      else if c =? c_gt then emit [TEnd (rev n)] x
-      else if is_xml_blank c then set_mode (MEndWs (rev n)) x
+      else if c =? c_gt then emit [TEnd (frev n)] x
+      else if is_xml_blank c then set_mode (MEndWs (frev n)) x
       else junk Failed x
   | MEndWs n =>
       if is_xml_blank c then x
@@ -184,11 +187,11 @@ Definition lex_init : lstate := {| mode := MText; txt := []; b0 := 0; b1 := 0; o
 Definition lex_finish (x : lstate) : lstate :=
   match mode x with
   | MText => flush x
-  | MEnt raw => flush (puts (c_amp :: rev raw) (mark Failed x))
+  | MEnt raw => flush (puts (c_amp :: frev raw) (mark Failed x))
   | _ => mark Failed x
   end.
 Definition lex_run (bs : bytes) : lstate := lex_finish (fold_left lex_step bs lex_init).
-Definition raw_tokens (bs : bytes) : list token := rev (out (lex_run bs)).
+Definition raw_tokens (bs : bytes) : list token := frev (out (lex_run bs)).
 Definition raw_status (bs : bytes) : status :=
   if existsb (fun c => 128 <=? c) bs then Unmod else st (lex_run bs).
 
@@ -208,28 +211,28 @@ Definition balanced (ts : list token) : bool := balanced_from [] ts.
 
 (* ------------------------------------------------------------------------------------------- *)
 (* 3. the line scanner and the loop of InitFromBytes *)
-Definition max_scan_token : N := 65536.    (* bufio.MaxScanTokenSize *)
+Definition max_scan_token : N := c_conf_max_scan_token.    (* bufio.MaxScanTokenSize, regenerated from the tree *)
 
 (* bufio.ScanLines segments (before dropCR): split at '\n'; a final unterminated segment only when non-empty *)
 Fixpoint split_lines_aux (cur : bytes) (s : bytes) : list bytes :=
   match s with
-  | [] => match cur with [] => [] | _ => [rev cur] end
-  | c :: r => if c =? c_nl then rev cur :: split_lines_aux [] r else split_lines_aux (c :: cur) r
+  | [] => match cur with [] => [] | _ => [frev cur] end
+  | c :: r => if c =? c_nl then frev cur :: split_lines_aux [] r else split_lines_aux (c :: cur) r
   end.
 Definition split_lines (s : bytes) : list bytes := split_lines_aux [] s.
 
 Definition drop_cr (l : bytes) : bytes :=
-  match rev l with
-  | c :: r => if c =? c_cr then rev r else l
+  match frev l with
+  | c :: r => if c =? c_cr then frev r else l
   | [] => l
   end.
-Definition is_conf_blank (c : N) : bool := (c =? c_sp) || (c =? c_nl) || (c =? c_tab).   (* whiteSpaceChars *)
+Definition is_conf_blank (c : N) : bool := existsb (N.eqb c) c_conf_blanks.   (* whiteSpaceChars " \n\t", regenerated from the tree *)
 Fixpoint trim_left (l : bytes) : bytes :=
   match l with
   | c :: r => if is_conf_blank c then trim_left r else l
   | [] => []
   end.
-Definition trim (l : bytes) : bytes := rev (trim_left (rev (trim_left l))).
+Definition trim (l : bytes) : bytes := frev (trim_left (frev (trim_left l))).
 
 (* strings.SplitN(line, "=", 2): kv[0] and, when there is a '=', kv[1] *)
 Fixpoint cut_eq (l : bytes) : bytes * option bytes :=
@@ -326,9 +329,9 @@ Definition parse (bs : bytes) : outcome store :=
    [good_prefix] = the tokens delivered before the first error: everything emitted before the failing run. *)
 Fixpoint lex_prefix (x : lstate) (bs : bytes) : list token :=
   match bs with
-  | [] => match st (lex_finish x) with Clean => rev (out (lex_finish x)) | _ => rev (out x) end
+  | [] => match st (lex_finish x) with Clean => frev (out (lex_finish x)) | _ => frev (out x) end
   | c :: r => let x' := lex_step x c in
-              match st x' with Clean => lex_prefix x' r | _ => rev (out x) end
+              match st x' with Clean => lex_prefix x' r | _ => frev (out x) end
   end.
 Fixpoint balanced_prefix (stk : list bytes) (ts : list token) : list token :=
   match ts with
@@ -370,8 +373,8 @@ Definition parse_old (bs : bytes) : outcome store :=
 (* 4. getters *)
 Fixpoint split_on_aux (sep : N) (cur : bytes) (s : bytes) : list bytes :=
   match s with
-  | [] => [rev cur]
-  | c :: r => if c =? sep then rev cur :: split_on_aux sep [] r else split_on_aux sep (c :: cur) r
+  | [] => [frev cur]
+  | c :: r => if c =? sep then frev cur :: split_on_aux sep [] r else split_on_aux sep (c :: cur) r
   end.
 Definition split_on (sep : N) (s : bytes) : list bytes := split_on_aux sep [] s.   (* strings.Split, one-byte separator *)
 
@@ -380,20 +383,20 @@ Fixpoint trim_left_c (ch : N) (l : bytes) : bytes :=
   | c :: r => if c =? ch then trim_left_c ch r else l
   | [] => []
   end.
-Definition trim_c (ch : N) (l : bytes) : bytes := rev (trim_left_c ch (rev (trim_left_c ch l))).
+Definition trim_c (ch : N) (l : bytes) : bytes := frev (trim_left_c ch (frev (trim_left_c ch l))).
 Definition nonempty (b : bytes) : bool := match b with [] => false | _ => true end.
 
 Definition analysis_path (p : bytes) : outcome (list bytes) :=
-  match rev (split_on c_slash p) with
+  match frev (split_on c_slash p) with
   | [] => Panic 2                                       (* pathVec[len(pathVec)-1] *)
   | last_item :: init_rev =>
       let vec := match split_on c_lt last_item with
-                 | [a; b] => rev init_rev ++ [a; trim_c c_gt b]
-                 | _ => rev init_rev ++ [last_item]
+                 | [a; b] => frev init_rev ++ [a; trim_c c_gt b]
+                 | _ => frev init_rev ++ [last_item]
                  end in
       Ok (filter nonempty vec)
   end.
-Definition key_of_vec (v : list bytes) : key := rev v ++ [root_name].
+Definition key_of_vec (v : list bytes) : key := frev v ++ [root_name].
 
 Definition get_elem (s : store) (p : bytes) : outcome (option (key * info)) :=
   match analysis_path p with
@@ -472,7 +475,7 @@ Definition get_domain (s : store) (p : bytes) : outcome (list bytes) :=
 Definition get_domain_key (s : store) (p : bytes) : outcome (list bytes) :=
   with_elem s p (fun e => match e with Some (k, _) => map fst (children KLeaf s k) | None => [] end).
 Definition get_domain_line (s : store) (p : bytes) : outcome (list bytes) :=
-  with_elem s p (fun e => match e with Some (_, i) => rev (ilines i) | None => [] end).
+  with_elem s p (fun e => match e with Some (_, i) => frev (ilines i) | None => [] end).
 Definition get_map (s : store) (p : bytes) : outcome (list (bytes * bytes)) :=
   with_elem s p (fun e => match e with Some (k, _) => children KLeaf s k | None => [] end).
 
@@ -482,14 +485,16 @@ Definition get_map (s : store) (p : bytes) : outcome (list (bytes * bytes)) :=
    Defaults used by the harness: string "?DEF" , int -77, int32 12345, bool true and bool false.
    Listings come from Go map iteration: compared as sets (the harness sorts, the model side is duplicate-free). *)
 Definition def_str : bytes := [63; 68; 69; 70].
-Definition query : Type :=
-  bytes * bytes * Z * Z * bool * bool * list bytes * list bytes * list bytes * list (bytes * bytes).
-Definition c17_case : Type := list (N * hexs) * bool * list (hexs * hexs * Z * Z * bool * bool * list hexs * list hexs * list hexs * list (hexs * hexs)).
+(* observed strings are written run-length encoded (n x bytes) like the document: values can be 64 KiB long *)
+Definition rle : Type := list (N * hexs).
+Definition c17_query : Type := hexs * rle * Z * Z * bool * bool * list hexs * list hexs * list rle * list (hexs * rle).
+Definition c17_case : Type := rle * bool * list c17_query.
 
 Fixpoint repeat_bytes (n : nat) (b : bytes) : bytes :=
   match n with O => [] | S n' => b ++ repeat_bytes n' b end.
-Definition input_of (segs : list (N * hexs)) : bytes :=
+Definition unrle (segs : rle) : bytes :=
   concat (map (fun s => repeat_bytes (N.to_nat (fst s)) (unhex (snd s))) segs).
+Definition input_of : rle -> bytes := unrle.
 
 Definition incl_b (a b : list bytes) : bool := forallb (fun x => existsb (bytes_eqb x) b) a.
 Definition same_set (a b : list bytes) : bool := (length a =? length b)%nat && incl_b a b && incl_b b a.
@@ -498,18 +503,18 @@ Definition incl_p (a b : list (bytes * bytes)) : bool := forallb (fun x => exist
 Definition same_pairs (a b : list (bytes * bytes)) : bool := (length a =? length b)%nat && incl_p a b && incl_p b a.
 Definition is_ok {A} (o : outcome A) (chk : A -> bool) : bool := match o with Ok a => chk a | _ => false end.
 
-Definition query_ok (s : store) (q : hexs * hexs * Z * Z * bool * bool * list hexs * list hexs * list hexs * list (hexs * hexs)) : bool :=
+Definition query_ok (s : store) (q : c17_query) : bool :=
   let '(p, str, i, i32, bt, bf, dom, keys, lines, mp) := q in
   let p := unhex p in
-  is_ok (get_string_def s p def_str) (bytes_eqb (unhex str))
+  is_ok (get_string_def s p def_str) (bytes_eqb (unrle str))
   && is_ok (get_int_def s p (-77)%Z) (Z.eqb i)
   && is_ok (get_int32_def s p 12345%Z) (Z.eqb i32)
   && is_ok (get_bool_def s p true) (Bool.eqb bt)
   && is_ok (get_bool_def s p false) (Bool.eqb bf)
   && is_ok (get_domain s p) (same_set (map unhex dom))
   && is_ok (get_domain_key s p) (same_set (map unhex keys))
-  && is_ok (get_domain_line s p) (list_eqb bytes_eqb (map unhex lines))
-  && is_ok (get_map s p) (same_pairs (map (fun kv => (unhex (fst kv), unhex (snd kv))) mp)).
+  && is_ok (get_domain_line s p) (list_eqb bytes_eqb (map unrle lines))
+  && is_ok (get_map s p) (same_pairs (map (fun kv => (unhex (fst kv), unrle (snd kv))) mp)).
 
 (* [sure] = the harness's conservative claim that the input is inside the alphabet *)
 Definition c17_check (c : c17_case * bool) : bool :=
